@@ -494,7 +494,7 @@ func writeEvidence(root string, spec *CheckSpec, tier string, seed int64, P *Pro
 	states = paths + branches
 	var repoFns []string
 	for f := range fns {
-		if strings.Contains(f, repoMod) && !strings.Contains(f, "zzverif") && !strings.Contains(f, ".Verif") {
+		if strings.Contains(f, repoMod) && !strings.Contains(f, "zzverif") && !strings.Contains(f, ".Verif") && !strings.Contains(f, ".verif") {
 			repoFns = append(repoFns, strings.ReplaceAll(f, repoMod+"/", ""))
 		}
 	}
